@@ -12,6 +12,7 @@ From Coq Require Import List Bool Ascii String.
 From UV.Base Require Import Res.
 From UV.Py Require Import PyStr.
 From UV.Schemes Require Import Common Generic LegacyOpenssl Gentoo Debian.
+From UV.Schemes Require Import Rpm Gem Arch Openssl RoundTrips.
 Import ListNotations.
 
 Theorem C11_generic :
@@ -60,8 +61,21 @@ Theorem C11_deb_validity_matches_constructor :
             (deb_is_valid (normalize s) = true -> deb_ctor s = deb_build (normalize s)).
 Proof. intros s. unfold deb_ctor. destruct (deb_is_valid (normalize s)); split; intros; congruence. Qed.
 
+Theorem C11_gem : forall s,
+  (gem_valid (normalize s) = true <-> exists v, gem_ctor s = Ok v) /\ (forall v, gem_ctor s = Ok v -> gem_ctor (gem_str v) = Ok v).
+Proof. intros s. split; [apply gem_valid_iff_ctor|apply gem_roundtrip]. Qed.
+Theorem C11_alpm : forall s,
+  (arch_valid (normalize s) = true <-> exists v, arch_ctor s = Ok v) /\ (forall v, arch_ctor s = Ok v -> arch_ctor (gen_str v) = Ok v).
+Proof. intros s. split; [apply arch_valid_iff_ctor|apply arch_roundtrip]. Qed.
+Theorem C11_rpm_and_openssl_validity_matches_constructor : forall s,
+  (rpm_valid (normalize s) = Ok true <-> exists v, rpm_ctor s = Ok v) /\ (ossl_valid (normalize s) = Ok true <-> exists v, ossl_ctor s = Ok v).
+Proof. intros s. split; [apply rpm_valid_iff_ctor|apply ossl_valid_iff_ctor]. Qed.
+
 Print Assumptions C11_generic.
 Print Assumptions C11_gentoo.
 Print Assumptions C11_alpine.
 Print Assumptions C11_legacy_openssl_validity_matches_constructor.
 Print Assumptions C11_deb_validity_matches_constructor.
+Print Assumptions C11_gem.
+Print Assumptions C11_alpm.
+Print Assumptions C11_rpm_and_openssl_validity_matches_constructor.
